@@ -48,10 +48,13 @@ def _q():
     return st.tuples(st.sampled_from([-1, 1]), st.integers(1, 60), st.integers(1, 16)).map(lambda t: [t[0] * t[1], t[2]])
 
 
-def _strategy(tier):
+def _ident_variants(tier):
+    return list(IDENTITIES)
+
+
+def _strategy(tier, ident):
     @st.composite
     def case(draw):
-        ident = draw(st.sampled_from(IDENTITIES))
         dim = 2 if ident.endswith("2d") else 3
         n = 5**dim
         nfields = {"div_curl_3d": 3, "div_forcing_update_3d": 6, "div_free_velocity_2d": 1, "curl_curl_2d": 1,
@@ -59,19 +62,21 @@ def _strategy(tier):
                    "penalised_is_forcing_3d": 9}[ident]
         return {
             "identity": ident,
-            "values": draw(st.lists(st.lists(_q(), min_size=n, max_size=n), min_size=nfields, max_size=nfields)),
+            "values": draw(st.lists(gen.block_keys, min_size=nfields, max_size=nfields)),
+            "centre": draw(st.lists(_q(), min_size=nfields, max_size=nfields)),
             "p": draw(st.lists(_q(), min_size=2, max_size=2)),
         }
 
     return case()
 
 
-def _grid(dim, names, values):
+def _grid(dim, names, values, centre=None):
+    """5^d block per field: pseudo-random rationals from a drawn key, centre cell drawn explicitly."""
     g = ExactGrid((5,) * dim)
-    for nm, vals in zip(names, values):
-        arr = np.empty((5,) * dim, dtype=object)
-        flat = [gen.to_fraction(v) for v in vals]
-        arr.reshape(-1)[:] = flat
+    for i, (nm, key) in enumerate(zip(names, values)):
+        arr = gen.rational_block(key, (5,) * dim, max_num=60, max_den=16)
+        if centre is not None:
+            arr[(2,) * dim] = gen.to_fraction(centre[i])
         g.set(nm, arr)
     return g
 
@@ -117,9 +122,10 @@ def _body_exact(case, ctx):
     ident = case["identity"]
     p1, p2 = (gen.to_fraction(v) for v in case["p"])
     vals = case["values"]
+    cen = case["centre"]
     c3, c2 = (2, 2, 2), (2, 2)
     if ident == "div_curl_3d":
-        g = _grid(3, ["Fx", "Fy", "Fz"], vals)
+        g = _grid(3, ["Fx", "Fy", "Fz"], vals, cen)
         for n in ("Cx", "Cy", "Cz"):
             g.zeros(n)
         _apply_curl3(g, ("Fx", "Fy", "Fz"), ("Cx", "Cy", "Cz"), p1)
@@ -131,7 +137,7 @@ def _body_exact(case, ctx):
         if _div3(g, ("Cx", "Cy", "Cz"), c3) != 0:
             raise Violation("independent centred divergence of the library curl is non-zero")
     elif ident == "div_forcing_update_3d":
-        g = _grid(3, ["Wx", "Wy", "Wz", "Fx", "Fy", "Fz"], vals)
+        g = _grid(3, ["Wx", "Wy", "Wz", "Fx", "Fy", "Fz"], vals, cen)
         before = _div3(g, ("Wx", "Wy", "Wz"), c3)
         g.zeros("D0")
         g.apply(_rec("_divergence_stencil_3d"), {"divergence": "D0", "field_x": "Wx", "field_y": "Wy", "field_z": "Wz"},
@@ -144,7 +150,7 @@ def _body_exact(case, ctx):
         if before != after or g.fields["D0"][c3] != g.fields["D1"][c3]:
             raise Violation(f"curl-type vorticity update changed div(omega): {before} -> {after} (prefactor {p1})")
     elif ident in ("div_free_velocity_2d", "curl_curl_2d"):
-        g = _grid(2, ["psi"], vals)
+        g = _grid(2, ["psi"], vals, cen)
         g.zeros("ux")
         g.zeros("uy")
         g.apply(_rec("_outplane_field_curl_x_stencil_2d"), {"curl_x": "ux", "field": "psi"}, {"prefactor": p1})
@@ -163,7 +169,7 @@ def _body_exact(case, ctx):
             if g.fields["w"][c2] != -p1 * p2 * wide:
                 raise Violation(f"curl_inplane(curl_outplane psi) = {g.fields['w'][c2]} != -p1*p2*wide Laplacian = {-p1 * p2 * wide}")
     elif ident == "forcing_is_curl_2d":
-        g = _grid(2, ["w", "Fx", "Fy"], vals)
+        g = _grid(2, ["w", "Fx", "Fy"], vals, cen)
         w0 = g.fields["w"][c2]
         g.zeros("c")
         g.apply(_rec("_inplane_field_curl_stencil_2d"), {"curl": "c", "field_x": "Fx", "field_y": "Fy"},
@@ -174,7 +180,7 @@ def _body_exact(case, ctx):
         if g.fields["w"][c2] != w0 + p1 * g.fields["c"][c2]:
             raise Violation("2-D vorticity update from forcing != omega + prefactor * library curl")
     elif ident == "forcing_is_curl_3d":
-        g = _grid(3, ["Wx", "Wy", "Wz", "Fx", "Fy", "Fz"], vals)
+        g = _grid(3, ["Wx", "Wy", "Wz", "Fx", "Fy", "Fz"], vals, cen)
         w0 = [g.fields[n][c3] for n in ("Wx", "Wy", "Wz")]
         for n in ("Cx", "Cy", "Cz"):
             g.zeros(n)
@@ -184,7 +190,7 @@ def _body_exact(case, ctx):
             if g.fields[wn][c3] != w0[c] + p1 * g.fields[cn][c3]:
                 raise Violation(f"3-D vorticity update from forcing, component {c}, != omega + prefactor * library curl")
     elif ident == "penalised_is_forcing_2d":
-        g = _grid(2, ["w", "Fx", "Fy", "Gx", "Gy"], vals)
+        g = _grid(2, ["w", "Fx", "Fy", "Gx", "Gy"], vals, cen)
         g.set("w2", g.fields["w"].copy())
         g.set("Dx", g.fields["Gx"] - g.fields["Fx"])
         g.set("Dy", g.fields["Gy"] - g.fields["Fy"])
@@ -197,7 +203,7 @@ def _body_exact(case, ctx):
         if g.fields["w"][c2] != g.fields["w2"][c2]:
             raise Violation("2-D penalised-velocity update != forcing update applied to (penalised - velocity)")
     elif ident == "penalised_is_forcing_3d":
-        g = _grid(3, ["Wx", "Wy", "Wz", "Fx", "Fy", "Fz", "Gx", "Gy", "Gz"], vals)
+        g = _grid(3, ["Wx", "Wy", "Wz", "Fx", "Fy", "Fz", "Gx", "Gy", "Gz"], vals, cen)
         for a in "xyz":
             g.set(f"V{a}", g.fields[f"W{a}"].copy())
             g.set(f"D{a}", g.fields[f"G{a}"] - g.fields[f"F{a}"])
@@ -302,7 +308,7 @@ def _body_compiled(case, ctx):
 
 PARTS = [
     Part(name="exact_identities", strategy=_strategy, body=_body_exact,
-         examples={"quick": 1600, "thorough": 40000}, shards={"quick": 8, "thorough": 16}),
+         examples={"quick": 1600, "thorough": 40000}, shards={"quick": 8, "thorough": 16}, variants=_ident_variants),
     Part(name="compiled_divergence", strategy=_compiled_strategy, body=_body_compiled,
          examples={"quick": 60, "thorough": 1500}, shards={"quick": 4, "thorough": 16}),
 ]
